@@ -52,6 +52,8 @@ impl<T: RealNumber> NBDistribution<T> for MultinomialNBDistribution<T> {
                 forall|a: T, b: T| *(#[trigger] a.add_assign_spec(b)) == a.add_spec(b),
                 self.wf(), class_index < self.class_labels@.len(), j.vview().len() == self.n_features,
                 likelihood == mn_ll(j.vview(), self.feature_log_prob@[class_index as int]@, feature as int), //# inv-partial-sum-of-count-times-log-probability
+//@loopbody 1
+            proof { T::ops_total(); }   // all operator facts inside the body (robust against `x += y` <-> `x = x + y` rewrites)
 //@end
 //@extract src/naive_bayes/multinomial.rs :: impl<T: RealNumber, M: Matrix<T>> NBDistribution<T, M> for MultinomialNBDistribution<T> :: classes :: ret=r
 //@spec
